@@ -10,7 +10,7 @@ Definition sq_norm (x : cvec) : float := fst (fvdot x x).
 (* flag arnoldi_clip_garbage: u01 lies in a 2-dimensional invariant subspace of S5; the remainder of step 2 is at rounding
    level (H[2,1] < 1e-12) but the next basis column is remainder/(tol/2): neither zero nor a unit vector *)
 Definition clip_bad_at (cfix : bool) : bool :=
-  let s := arnoldi1 (fops 5) (fmv S5) false cfix 5 u01 4 tol12 in
+  let s := arnoldi1 (fops 5) (fmv S5) false cfix false 5 u01 4 tol12 in
   (fst (Hent (fops 5) (aH s) 2 1) <? 0x1.19799812dea11p-40)
   && (0x1.0c6f7a0b5ed8dp-60 <? sq_norm (nth 2 (aQ s) []))        (* ||Q[:,2]||^2 > 1e-18 *)
   && (sq_norm (nth 2 (aQ s) []) <? 0x1.9eb851eb851ecp-1).       (* ||Q[:,2]||^2 < 0.81 *)
@@ -19,7 +19,7 @@ Theorem arnoldi_clip_garbage_refuted : clip_bad = true.
 Proof. vm_compute. reflexivity. Qed.
 (* with the repaired normalisation the column after the breakdown is exactly zero on the same input *)
 Definition clip_repaired_ok : bool :=
-  let s := arnoldi1 (fops 5) (fmv S5) false true 5 u01 4 tol12 in
+  let s := arnoldi1 (fops 5) (fmv S5) false true false 5 u01 4 tol12 in
   (fst (Hent (fops 5) (aH s) 2 1) <? 0x1.19799812dea11p-40) && (sq_norm (nth 2 (aQ s) []) =? 0).
 Theorem arnoldi_clip_garbage_repaired : clip_repaired_ok = true.
 Proof. vm_compute. reflexivity. Qed.
@@ -28,22 +28,36 @@ Proof. vm_compute. reflexivity. Qed.
    is not detected (the test compares H[1,0] with tol*H[1,0]); the iteration goes on through clipped noise: H[:,1], H[:,2]
    are non-zero and the returned columns 0 and 3 are far from orthogonal *)
 Definition areltol_bad : bool :=
-  let s := arnoldi1 (fops 3) (fmv S3) false false 3 ev3 3 tol7 in
-  Nat.eqb (arnoldi_steps (fops 3) (fmv S3) false false 3 ev3 3 tol7) 3
+  let s := arnoldi1 (fops 3) (fmv S3) false false false 3 ev3 3 tol7 in
+  Nat.eqb (arnoldi_steps (fops 3) (fmv S3) false false false 3 ev3 3 tol7) 3
   && (fst (Hent (fops 3) (aH s) 1 0) <? 0x1.6849b86a12b9bp-47)    (* 1e-14 *)
   && (0x1p-3 <? fst (Hent (fops 3) (aH s) 3 2)).
 Theorem arnoldi_reltol_first_step_refuted : areltol_bad = true.
 Proof. vm_compute. reflexivity. Qed.
 (* the repaired stopping test (reference ||A q_0|| = ||H[:,0]|| instead of H[1,0]) stops after the first step on the same input *)
-Theorem arnoldi_reltol_first_step_repaired : arnoldi_steps (fops 3) (fmv S3) true false 3 ev3 3 tol7 = 1%nat.
+Theorem arnoldi_reltol_first_step_repaired : arnoldi_steps (fops 3) (fmv S3) true false false 3 ev3 3 tol7 = 1%nat.
 Proof. vm_compute. reflexivity. Qed.
 
 (* flag arnoldi_batch_shared_stop: alone, u01 stops after 2 steps; in a batch with a generic vector it is iterated 4 steps *)
 Definition abatch_bad : bool :=
-  let alone := arnoldi_batch (fops 5) (fmv S5) false false 5 [u01] 4 tol7 in
-  let both := arnoldi_batch (fops 5) (fmv S5) false false 5 [g5; u01] 4 tol7 in
+  let alone := arnoldi_batch (fops 5) (fmv S5) false false false 5 [u01] 4 tol7 in
+  let both := arnoldi_batch (fops 5) (fmv S5) false false false 5 [g5; u01] 4 tol7 in
   Nat.eqb (fst alone) 2 && Nat.eqb (fst both) 4
   && (fst (Hent (fops 5) (aH (nth 1 (snd both) (mk_ast [] [] f0))) 2 1) <? 0x1.19799812dea11p-40)
   && (0x1p-1 <? cabs1 (Hent (fops 5) (aH (nth 1 (snd both) (mk_ast [] [] f0))) 3 3)).
 Theorem arnoldi_batch_shared_stop_refuted : abatch_bad = true.
+Proof. vm_compute. reflexivity. Qed.
+
+(* flag arnoldi_absolute_clip (found by the GMRES check): the breakdown threshold tol/2 is absolute.  For an operator of overall scale
+   1e-6 and tol = 1e-6 the first remainder (norm 5e-7, 14% of ||A q_0|| = 3.5e-6) is below tol/2, so the second basis column is set
+   to zero although the Krylov space is not exhausted; with the threshold relative to ||A q_0|| it is a unit vector *)
+Definition Asmall : list cvec := [[fr 0x1.0c6f7a0b5ed8dp-19; fr 0x1.0c6f7a0b5ed8dp-20]; [fr 0x1.0c6f7a0b5ed8dp-20; fr 0x1.92a737110e454p-19]].  (* 1e-6*[[2,1],[1,3]] *)
+Definition tol6 : cf := (0x1.0c6f7a0b5ed8dp-20, 0).   (* 1e-6 *)
+Definition absclip_at (afix : bool) : bool * bool :=
+  let s := arnoldi1 (fops 2) (fmv Asmall) true true afix 2 [fr 1; fr 1] 2 tol6 in
+  (sq_norm (nth 1 (aQ s) []) =? 0,                                              (* second column is the zero vector *)
+   (0x1.47ae147ae147bp-4 <? fst (Hent (fops 2) (aH s) 1 0) / fst (fhyp (Hent (fops 2) (aH s) 0 0) (Hent (fops 2) (aH s) 1 0)))).  (* remainder > 8% of ||A q_0|| *)
+Theorem arnoldi_absolute_clip_refuted : absclip_at false = (true, true).
+Proof. vm_compute. reflexivity. Qed.
+Theorem arnoldi_absolute_clip_repaired : absclip_at true = (false, true).
 Proof. vm_compute. reflexivity. Qed.
